@@ -111,7 +111,7 @@ mutual
       else reduce a.neg (subLoop a.mag b.mag 0)
 end
 
-/-! ### multiplication (:985-1100, DDproduct :1785-1802) -/
+/-! ### multiplication (:985-1100, DDproduct :1786-1803) -/
 
 def H : Nat := 4294967296   -- 2^32: `word_type_half_bits`
 
@@ -224,7 +224,7 @@ def shr (a : Big) (k : Nat) : Big :=
     let x1 := a.mag.drop q
     if r = 0 then reduce a.neg x1 else reduce a.neg (shrBits r x1)
 
-/-! ### radix conversion from text and bytes (detail::to_bigint :2052-2110, from_bytes_be :792-817) -/
+/-! ### radix conversion from text and bytes (detail::to_bigint :2055-2113, from_bytes_be :792-817) -/
 
 /-- the integer constructor: zero has no words -/
 def ofWord (w : Nat) : Big := { neg := false, mag := if w = 0 then [] else [w] }
@@ -265,7 +265,7 @@ def fromBytesBE (signum : Int) (bytes : List Nat) : Big :=
   let v := fromBytesLoop bytes (ofWord 0)
   if signum < 0 then { neg := true, mag := v.mag } else v
 
-/-! ### division by a half-word divisor (divide :1716-1737) and write_bytes_be (:1328-1353) -/
+/-! ### division by a half-word divisor (divide :1681-1738) and write_bytes_be (:1328-1353) -/
 
 /-- the loop from the most significant word down; input and output most significant word first -/
 def divHalfLoop (d : Nat) : List Nat → Nat → List Nat × Nat
